@@ -10,7 +10,7 @@ PROP = {
     ],
 }
 TEXT = {
-    "text": "Coq model of both ends of the TCP sync protocol: sync_reply (server, byte-exact incl. the uint16 length prefix) and client_recv/parse_reply (client, every Go slice expression with an explicit Panic outcome, uint16/uint64 arithmetic written out). Theorems for ALL views/byte strings and an ARBITRARY verify function: c10_agree (the genuine reply of every well-formed view parses to exactly offset, bitfield, migration order or server list, whatever follows on the connection), c10_agree_unbounded_list_refuted (FINDING: the premise that the reply fits the 16-bit length prefix fails for a server that knows ~190-624 authorized servers; the client then rejects the genuine reply -- witness by vm_compute, reproduced on the real server), c10_bitfield (bit i set iff slot i holds a record, banned included), c10_refusal, c10_reject (accept implies: outer signature under the contacted server's key, 24 h freshness in Go's uint64 arithmetic, binding to the device key, migration signed by the CURRENT GCA, every entry signed by the new/current GCA), c10_frame (a round without an accepted reply leaves identity, list and files unchanged). Tie: suite syncwire drives a real test-mode server over UDP/HTTP/TCP through eleven states (190 servers with a reply beyond 64 KiB, window edges, banned slot, 0..8 servers with 0/1/254/255-byte locations, migration orders with 0..4 servers, rotation to offset 2016), rebuilds the reply bytes in the model from the public data (must equal the wire), parses genuine and mutated replies with the real staticServerSync via a replaying TCP peer and compares every outcome with the model.",
+    "text": "Coq model of both ends of the TCP sync protocol: sync_reply (server, byte-exact incl. the uint16 length prefix) and client_recv/parse_reply (client, every Go slice expression with an explicit Panic outcome, uint16/uint64 arithmetic written out). Theorems for ALL views/byte strings and an ARBITRARY verify function: c10_agree (the genuine reply of every well-formed view parses to exactly offset, bitfield, migration order or server list, whatever follows on the connection), c10_agree_unbounded_list_refuted (FINDING: the premise that the reply fits the 16-bit length prefix fails for a server that knows ~190-624 authorized servers; the client then rejects the genuine reply -- witness by vm_compute, reproduced on the real server), c10_bitfield (bit i set iff slot i holds a record, banned included), c10_refusal, c10_reject (accept implies: outer signature under the contacted server's key, 24 h freshness in Go's uint64 arithmetic, binding to the device key, migration signed by the CURRENT GCA, every entry signed by the new/current GCA), c10_frame (a round without an accepted reply leaves identity, list and files unchanged). Tie: suite syncwire drives a real test-mode server over UDP/HTTP/TCP through eleven states (190 servers with a reply beyond 64 KiB, window edges, banned slot, 0..8 servers with 0/1/254/255-byte locations, migration orders with 0..4 servers, rotation to offset 2016), rebuilds the reply bytes in the model from the public data (must equal the wire), parses genuine and mutated replies with the real staticServerSync via a replaying TCP peer and compares every outcome with the model. Added after seeded-change rounds: negative and extreme power values in the window, inner-signature tampering parsed by a client that already knows the servers (hook VerifSyncSetServers), the rogue suite also runs here (six servers all failing one of the last checks: the round fails and changes nothing).",
     "note": "Trusted: Coq kernel + vm_compute, the harness (generators, oracle, signature table), secp256k1. Inner-signature and stale-reply cases need the server's private key: read from server.keys of the test server's directory.",
     "technique": "Coq proof (all byte strings, arbitrary verify) + differential correspondence (vm_compute) against real server and client",
 }
